@@ -50,7 +50,8 @@ def handle (line : String) : String :=
       let st := convert content tags
       let model := render st.secs st.syms (addAcceptsFull content st.secs)
       match parseImpl impl with
-      | none => badCase "impl output"
+      | none =>
+        if impl == "convert-panic" || impl == "convert-error" then specFail model impl else badCase "impl output"
       | some (isecs, isyms, iadd) =>
         -- names that are not valid UTF-8 are outside the property's hypothesis: correspondence only
         if !(namesValid tags) then answer model
